@@ -147,7 +147,12 @@ func (h *Handler) ServeHTTP(response http.ResponseWriter, request *http.Request)
 	}
 	data, err := readAll(body, request.ContentLength)
 	if err != nil {
+		// the body ended before its declared length (or could not be read): what
+		// has arrived is not the request the client meant to send, and the rest
+		// of the buffer is zeros - nothing is processed
 		h.onError(response, request, err)
+		response.WriteHeader(http.StatusBadRequest)
+		return
 	}
 	if len(data) > h.Service.MaxRequestLength {
 		_ = request.Body.Close()
